@@ -220,6 +220,14 @@ CHECKS["C15"]["text"] += " The request's message type also ranges over INFORM, D
 CHECKS["C16"]["text"] += " Scenario S1e: a relayed solicit with two hinted IA_PDs and a direct solicit."
 CHECKS["C18"]["text"] += " Single unquoted tokens that YAML types as floats, large integers or booleans are arguments exactly as written."
 CHECKS["C20"]["text"] += " Held results: returned addresses are kept across 300 further calls and fed back as bases; they keep their value."
+# ---- additions of seed round 13
+CHECKS["C02"]["text"] += " Option 61 also spells ANOTHER client's hardware address (Ethernet form); the irrelevant-option closure uses seven payload shapes per code."
+CHECKS["C06"]["text"] += " IPv4 frees are also written as 16-byte addresses with a 128-bit-wide mask."
+CHECKS["C08"]["text"] += " Long run: one message repeated 4200 times on one handler between aging and the return of the first client."
+CHECKS["C09"]["text"] += " Long run as in C08."
+CHECKS["C12"]["text"] += " Scenario S5d: two short datagrams, then a long relayed one, through one Serve loop."
+CHECKS["C17"]["text"] += " Other-plugins-option closure: the client also asks for another option x and an earlier plugin has already put x into the reply; the plugin still adds exactly its own options."
+CHECKS["C19"]["text"] += " Any-request-option closure: every accepted configuration is also driven with every other option code in seven payload shapes (no panic, reply serialises); the range graphs run the same closure."
 ALL = ["C%02d" % i for i in range(1, 21)]
 NA_REASON = "check not built yet in this session (planned, see DESIGN.md section 5); will be claimed once its machinery exists"
 m = {
